@@ -1,7 +1,11 @@
 pub mod c01;
+pub mod c02;
+pub mod c05;
 pub mod c08;
 pub mod c09;
+pub mod c12;
 pub mod c15;
+pub mod c17;
 pub mod part;
 
 /// Restarting a logger that writes directly to timestamp-named files (TimestampsDirect,
